@@ -24,7 +24,7 @@ import (
 var c19StdKinds = map[string]bool{
 	"osfile-ok": true, "osfile-closed": true, "osfile-rdonly": true, "osfile-devfull": true, "ospipe-closed": true,
 	"iopipe": true, "bufio": true, "multi": true, "discard": true, "bytesbuffer": true, "stringsbuilder": true,
-	"reentrant": true,
+	"reentrant": true, "bytesbuffer-used": true, "stringsbuilder-used": true, "osfile-panics": true,
 }
 
 // c19Tmp is where the real files of the file destinations live (each is removed
@@ -280,6 +280,54 @@ func c19RunStd(sc *C19Step, m *ir.Module, S string) *c19Outcome {
 		b := &strings.Builder{}
 		dst = b
 		check = func(n int64, err error) *c19Outcome { return healthy(b.String(), n, err) }
+	case "bytesbuffer-used", "stringsbuilder-used":
+		// A destination that already holds something (a header comment, an earlier
+		// module): WriteTo appends exactly its text and counts exactly those bytes.
+		header := "; written before the module\n"
+		var text func() string
+		if sc.Kind == "bytesbuffer-used" {
+			b := &bytes.Buffer{}
+			b.WriteString(header)
+			dst, text = b, b.String
+		} else {
+			b := &strings.Builder{}
+			b.WriteString(header)
+			dst, text = b, b.String
+		}
+		check = func(n int64, err error) *c19Outcome {
+			t := text()
+			if !strings.HasPrefix(t, header) {
+				return fail("bytes-differ", "what the destination held before the call has changed")
+			}
+			return healthy(t[len(header):], n, err)
+		}
+	case "osfile-panics":
+		// A print that cannot succeed (the module is unfinished: a block has no
+		// terminator) into a real file, the panic recovered by the caller. Nothing
+		// is checked about this call itself; the calls that follow must be unaffected.
+		var broken *ir.Func
+		for _, f := range m.Funcs {
+			if len(f.Blocks) > 0 {
+				broken = f
+				break
+			}
+		}
+		f, e := os.CreateTemp(c19Tmp(), "panics-")
+		if e != nil || broken == nil {
+			if e == nil {
+				f.Close()
+				os.Remove(f.Name())
+			}
+			return out
+		}
+		last := broken.Blocks[len(broken.Blocks)-1]
+		saved := last.Term
+		last.Term = nil
+		protect(func() { m.WriteTo(f) })
+		last.Term = saved
+		f.Close()
+		os.Remove(f.Name())
+		return out
 	case "reentrant":
 		w := &simWriter{k: sc.K, shape: "short", err: injected, lateErr: errors.New("late error: Write called after a failed Write")}
 		rw := &reentrantWriter{simWriter: w, m: m, S: S}
